@@ -38,7 +38,12 @@ func publishedState(lb *loadbalancer.LoadBalancer) string {
 // genBreakerConfig draws a breaker section and keeps it only if the real validator accepts it
 // (the property quantifies over accepted configurations). Construction makes rejection rare.
 func genBreakerConfig(rt *rapid.T) (bcfg, *config.Config) {
-	c := bcfg{FT: rapid.IntRange(1, 3).Draw(rt, "ft"), ST: rapid.IntRange(1, 3).Draw(rt, "st"), MR: rapid.IntRange(0, 4).Draw(rt, "mr"),
+	mr := rapid.IntRange(0, 4).Draw(rt, "mr")
+	if rapid.IntRange(0, 9).Draw(rt, "hugemr") == 0 {
+		// the validator only bounds max_requests from below: very large values are accepted configurations too
+		mr = rapid.SampledFrom([]int{1000000, 1<<31 - 1, 1 << 31, 1<<32 - 1, 1 << 32, 1<<32 + 1, 1<<32 + 2, 1<<40 + 1}).Draw(rt, "mrvalue")
+	}
+	c := bcfg{FT: rapid.IntRange(1, 3).Draw(rt, "ft"), ST: rapid.IntRange(1, 3).Draw(rt, "st"), MR: mr,
 		Interval: rapid.SampledFrom([]int{1, 5, 60}).Draw(rt, "interval"), Timeout: rapid.SampledFrom([]int{1, 5, 60}).Draw(rt, "timeout")}
 	cfg := lab.BaseConfig(rapid.SampledFrom(lab.Strategies).Draw(rt, "strategy"), lab.Ones(rapid.IntRange(1, 3).Draw(rt, "backends")))
 	cfg.CircuitBreaker = config.CircuitBreakerConfig{Enabled: true, MaxRequests: c.MR, IntervalSeconds: c.Interval, TimeoutSeconds: c.Timeout,
@@ -112,8 +117,8 @@ func TestC08Liveness(t *testing.T) {
 				fn.Set(lab.BackendHost(i), lab.Good)
 			}
 			effMR := c.MR
-			if effMR == 0 {
-				effMR = 1 // documented default; only used to size the script generously below
+			if effMR == 0 || effMR > 8 {
+				effMR = 3 // only used to size the script generously below
 			}
 			budget := c.ST + effMR + 4
 			hist = append(hist, "RECOVER")
@@ -137,7 +142,11 @@ func TestC08Liveness(t *testing.T) {
 				}
 			}
 		})
-		labels := []string{"start-" + startState, fmt.Sprintf("st%d-mr%d", c.ST, c.MR)}
+		mrl := fmt.Sprint(c.MR)
+		if c.MR > 8 {
+			mrl = "huge"
+		}
+		labels := []string{"start-" + startState, fmt.Sprintf("st%d-mr%s", c.ST, mrl)}
 		sub.Case(map[string]any{"cfg": c, "strategy": cfg.LoadBalancer.Strategy, "backends": len(cfg.Backends), "history": hist}, startState != "CLOSED", labels...)
 		if viol != "" {
 			rt.Fatalf("cfg %+v strategy %s history %v: %s", c, cfg.LoadBalancer.Strategy, hist, viol)
